@@ -958,6 +958,35 @@ def c15translated (fs0 : FS) (r : OutReq) : Option (List FOp) :=
   | .ok (g, none) => some (g.ops.filterMap GenOutfile.toFOp)
   | _ => none
 
+/-- c15.seq: n interim writes and the final one of one client run, each on the file system the earlier ones left -/
+def opC15Seq : List String → Res
+  | [qh, groups, n, pre] => match unhex qh, parseGroups groups, n.toNat? with
+    | some qt, some gs, some n =>
+      let path := b!"/d/out.csv"
+      let raw := match splitOnSub qt (b!"@O") with
+        | [] => []
+        | p0 :: more => more.foldl (fun acc x => acc ++ path ++ x) p0
+      match newQuery intOracle raw with
+      | .ok (some q) => match outReqOf q raw gs false, outReqOf q raw gs true with
+        | some ri, some rf =>
+          let fs0 : FS := if pre = "none" then [] else [(path, if pre = "-" then [] else (unhex pre).getD [])]
+          let step (fs : FS) (r : OutReq) : FS := applyOps fs (writeResultOps fs r)
+          let fs := step ((List.range n).foldl (fun fs _ => step fs ri) fs0) rf
+          let old := (fsGet fs0 path).getD []
+          -- the specification: replace mode ends with the complete result; append mode keeps what was there, adds the header
+          -- to an absent or empty file once, and appends the rows once per write
+          let rowsBytes := (limitedRows rf).flatMap csvLine
+          let specOut : Bytes :=
+            if rf.append then old ++ (if old.isEmpty then csvLine rf.header else []) ++ ((List.range (n + 1)).flatMap fun _ => rowsBytes)
+            else completeResult rf
+          { m := stateStr fs path, s := (if specOut.isEmpty then "-" else hexOf specOut),
+            t := joinWith "," ((if rf.append then ["append"] else ["replace"]) ++ (if n > 0 then ["interim"] else [])
+              ++ (if pre ≠ "none" then ["existing"] else [])) }
+        | _, _ => { m := "no-outfile" }
+      | _ => { m := "query-error" }
+    | _, _, _ => bad
+  | _ => bad
+
 def opC15Write : List String → Res
   | qh :: groups :: final :: pre :: kill :: rest => match unhex qh, parseGroups groups with
     | some qt, some gs =>
@@ -1112,7 +1141,8 @@ def opC13Session : List String → Res
       let step (acc : List (Nat × Nat) × List String) (op : String) : List (Nat × Nat) × List String :=
         let live := acc.1
         let live := if op.startsWith "N" then
-            (match ((op.drop 1).toString.splitOn "x").map (·.toNat?.getD 0) with
+            -- N<s>x<k>: k commands of one file each; N<s>g<k>: one command whose glob matches k files — k reads either way
+            (match (((op.drop 1).toString.replace "g" "x").splitOn "x").map (·.toNat?.getD 0) with
              | [s, k] => live ++ [(s, k)]
              | _ => live)
           else if op.startsWith "K" then live.filter (·.1 ≠ ((op.drop 1).toString.toNat?.getD 0))
@@ -1122,6 +1152,7 @@ def opC13Session : List String → Res
       let (_, obs) := opl.foldl step ([], [])
       let r := joinWith "," obs ++ ";final=0"
       { m := r, s := r, t := joinWith "," ((if opl.any (fun o => o.startsWith "N" ∧ ¬ o.endsWith "x1") then ["multi-command"] else [])
+          ++ (if opl.any (fun o => o.startsWith "N" ∧ o.contains 'g') then ["glob"] else [])
           ++ (if obs.any (· == toString cap) then ["full"] else []) ++ (if opl.any (·.startsWith "K") then ["session-end"] else [])) }
     | none => bad
   | _ => bad
@@ -1538,6 +1569,15 @@ def opC02Session : List String → Res
     | none => bad
   | _ => bad
 
+/-- c02.long: a single file some of whose lines are several KiB long arrives completely -/
+def opC02Long : List String → Res
+  | [files, _pad, _every, _obs] => match parseSizes files with
+    | some sizes =>
+      let want := "0;" ++ joinWith "&" (sizes.zipIdx.map fun (n, i) => s!"f{i}=" ++ (if n = 0 then "none" else s!"1..{n}"))
+      { m := want, s := want, t := "long-lines" }
+    | none => bad
+  | _ => bad
+
 def opC02E2E : List String → Res
   | [transport, files, _delay, _chunk, obs] => match parseSizes files with
     | some sizes =>
@@ -1600,6 +1640,27 @@ def opC07Pipe : List String → Res
     let want := joinWith "&" ((srcs.splitOn ";").zipIdx.map fun (sp, i) => s!"{i}=1.." ++ ((sp.splitOn "x").getD 0 "0"))
     { m := want, s := want, t := joinWith "," ((if (srcs.splitOn ";").length > 1 then ["multi-source"] else [])
         ++ (if (srcs.splitOn ";").any (fun sp => (((sp.splitOn "x").getD 1 "0").toNat?.getD 0) > 32768) then ["long"] else [])) }
+  | _ => bad
+
+/-- c06.interim: an interim result in flight when the input ends: every line is in what the client gets -/
+def opC06Interim : List String → Res
+  | [g, e] => match g.toNat?, e.toNat? with
+    | some g, some e =>
+      let want := s!"lines={g + e};groups={g + e};closed=true"
+      { m := want, s := want, t := joinWith "," (["interim-in-flight"] ++ (if g > 10 then ["more-than-queue"] else [])) }
+    | _, _ => bad
+  | _ => bad
+
+/-- c07.grep: grep readers selecting every mod-th line: per source the last number delivered is the largest multiple of mod
+    among its line numbers (every record carries the line's number in the file, which the harness checks against its content) -/
+def opC07Grep : List String → Res
+  | [_buf, srcs, mod] => match mod.toNat? with
+    | some mod =>
+      let want := joinWith "&" ((srcs.splitOn ";").zipIdx.map fun (sp, i) =>
+        let n := ((sp.splitOn "x").getD 0 "0").toNat?.getD 0
+        s!"{i}=1..{if mod = 0 then n else n / mod * mod}")
+      { m := want, s := want, t := joinWith "," (["grep"] ++ (if (srcs.splitOn ";").length > 1 then ["multi-source"] else [])) }
+    | none => bad
   | _ => bad
 
 /-! tie G: the translated Go functions run on the same scripts as the real ones -/
@@ -1760,6 +1821,7 @@ def dispatch (line : String) : Res :=
   | "c03.e2e" :: a => opC03E2E a
   | "c02.session" :: a => opC02Session a
   | "c02.e2e" :: a => opC02E2E a
+  | "c02.long" :: a => opC02Long a
   | "c02.many" :: a => opC02Many a
   | "c02.bad" :: a => opC02Bad a
   | "c02.eofstall" :: a => opC02EofStall a
@@ -1774,6 +1836,8 @@ def dispatch (line : String) : Res :=
   | "c07.multi" :: a => opC07Multi a
   | "c07.sched" :: a => opC07Sched a
   | "c07.pipe" :: a => opC07Pipe a
+  | "c07.grep" :: a => opC07Grep a
+  | "c06.interim" :: a => opC06Interim a
   | "c07.globid" :: a => opC07GlobID a
   | "c07.pause" :: a => opC07Pause a
   | "c08.perm" :: a => opC08Perm a
@@ -1795,6 +1859,7 @@ def dispatch (line : String) : Res :=
   | "c13.jobs" :: a => opC13Jobs a
   | "c14.script" :: a => opC14Script a
   | "c15.write" :: a => opC15Write a
+  | "c15.seq" :: a => opC15Seq a
   | "c15.race" :: a => opC15Race a
   | "c16.colorfy" :: a => opC16Colorfy a
   | "c16.race" :: _ => { m := "same", s := "same", t := "concurrent-servers" }
